@@ -68,15 +68,96 @@ theorem limit_conserves (g : Agg) (tp : Temporality) (steps : List AStep) (hf : 
   have h := held_of_empty g hf
   exact runSteps_conserved tp steps g [] hp (by rw [h.1]; rfl) (by rw [h.2]; rfl)
 
+/-- The capstone: for every aggregate-function kind (sums, LAST-VALUE aggregates, explicit and exponential
+histograms, precomputed sums in their cumulative form), every limit and every step sequence, each report IS the
+closed-form reference `Spec.refPoints` of its window — the very function the driver compares the real SDK's
+collections with: one point per reported key (`refKeys`), carrying `Spec.payload` of the measurements `specKey`
+maps to that key: their sum; the LAST of them (gauges); their number, sum and per-bucket numbers (histograms).
+Only the delta form of a precomputed sum is excluded here — it is `psum_delta_is_reference` below. -/
+theorem report_is_reference (g : Agg) (tp : Temporality) (steps : List AStep) (hf : g.keys = [])
+    (hp : g.psumDelta tp = false) :
+    (g.runSteps tp steps).2 = (windows (g.resets tp) [] steps).map (refPoints g g.limit) :=
+  runSteps_reference tp steps g [] hp (RunInv.fresh g hf)
+
 /-- Clauses "keep their identity" / "aggregated under the overflow set" / "adding together", per point: the point
-reported under key `k` holds exactly what the measurements that `specKey` maps to `k` put in (Σ of their values for
-sums, their number for histograms) — so a kept set's point contains its own measurements only, and the overflow
-point contains all the others.  (Last-value aggregates are not additive; they are covered by the key theorems and
-by the oracle's reference.) -/
+reported under key `k` carries exactly the payload of the measurements that `specKey` maps to `k` — so a kept set's
+point contains its own measurements only, and the overflow point contains all the others.  For every kind,
+including last-value aggregates (last measurement) and histograms (count, sum, every bucket). -/
 theorem limit_values_per_key (g : Agg) (tp : Temporality) (steps : List AStep) (hf : g.keys = [])
     (hp : g.psumDelta tp = false) :
-    allZip (perKeyOK g g.limit) (windows (g.resets tp) [] steps) (g.runSteps tp steps).2 = true :=
-  runSteps_perKey tp steps g [] hp (by rw [hf]; rfl) (fun k => by rw [cell1_of_empty g hf k]; rfl)
+    allZip (perKeyOK g g.limit) (windows (g.resets tp) [] steps) (g.runSteps tp steps).2 = true := by
+  rw [report_is_reference g tp steps hf hp]
+  exact allZip_map _ _ _ (perKeyOK_refPoints g g.limit)
+
+/-- Last-value aggregates (gauge: `lastValue`, observable gauge: `precomputedLastValue`) under a cardinality limit:
+every collection reports, for each reported set (a kept set or the overflow set), the LAST measurement of the
+window that `specKey` maps to that set — the window being the cycle (delta, and always for the precomputed form) or
+the lifetime (cumulative gauge) — and never more than `L` points. -/
+theorem last_value_reports_last (g : Agg) (tp : Temporality) (steps : List AStep) (hf : g.keys = [])
+    (hl : g.isLast = true) :
+    (g.runSteps tp steps).2 = (windows (g.resets tp) [] steps).map (fun w =>
+      (refKeys g.limit w).map fun k => (k, PV.num ((under g.limit w k).getLast?.getD 0))) ∧
+    (1 ≤ g.limit → ∀ r ∈ (g.runSteps tp steps).2, limitOK g.limit r = true) := by
+  refine ⟨?_, limit_bound g tp steps hf⟩
+  have hp : g.psumDelta tp = false := by cases g <;> simp [Agg.isLast] at hl <;> rfl
+  rw [report_is_reference g tp steps hf hp]
+  cases g <;> simp [Agg.isLast] at hl <;> rfl
+
+/-- Histograms (explicit and exponential) under a cardinality limit, per bucket: over all reported points of a
+collection, bucket `i` adds up to the number of measurements of the window that fall into bucket `i`
+(`Spec.bucketsConserved`); per key the count, the sum and EVERY bucket are those of the measurements mapped to the
+key (`perKeyOK`, i.e. `payload` = count / sum / `bucketCounts`); count and sum are conserved (`conserved`). -/
+theorem histogram_buckets_conserved (g : Agg) (tp : Temporality) (steps : List AStep) (hf : g.keys = [])
+    (hp : g.psumDelta tp = false) :
+    allZip (bucketsConserved g) (windows (g.resets tp) [] steps) (g.runSteps tp steps).2 = true ∧
+    allZip (perKeyOK g g.limit) (windows (g.resets tp) [] steps) (g.runSteps tp steps).2 = true ∧
+    allZip (conserved g) (windows (g.resets tp) [] steps) (g.runSteps tp steps).2 = true := by
+  refine ⟨?_, limit_values_per_key g tp steps hf hp, limit_conserves g tp steps hf hp⟩
+  rw [report_is_reference g tp steps hf hp]
+  exact allZip_map _ _ _ (bucketsConserved_ref g g.limit)
+
+/-- Precomputed sums (observable counters / up-down counters) with DELTA temporality under a cardinality limit:
+every collection reports exactly `Spec.refPointsDelta` — for each set reported in this cycle (the first `L-1`
+distinct observed sets and the overflow set, the limit being applied per cycle) the value observed under it in this
+cycle (overflowed observations added together) minus the value observed under the same reported set in the
+immediately preceding cycle (0 if it was not reported then).  Hence (a) per point `psumDeltaOK`; (b) conservation
+in the form that is true for the cumulative→delta conversion, `psumDeltaConserved`: Σ reported = Σ observed in the
+cycle − Σ over the sets reported now of what the preceding cycle observed under them; (c) the keys are
+`refKeys L window`, so at most `L` points in EVERY cycle, whatever was reported before. -/
+theorem psum_delta_is_reference (s : PSum) (steps : List AStep) (hv : s.values = []) (hr : s.reported = []) :
+    let reports := ((Agg.psum s).runSteps .delta steps).2
+    reports = (windowsPrev [] [] steps).map (fun p => refPointsDelta s.limit p.1 p.2) ∧
+    allZip (fun p r => psumDeltaOK s.limit p.1 p.2 r && psumDeltaConserved s.limit p.1 p.2 r)
+      (windowsPrev [] [] steps) reports = true ∧
+    reports.map (·.map (·.1)) = (windows true [] steps).map (refKeys s.limit) ∧
+    (1 ≤ s.limit → ∀ r ∈ reports, limitOK s.limit r = true) := by
+  intro reports
+  have href : reports = (windowsPrev [] [] steps).map (fun p => refPointsDelta s.limit p.1 p.2) :=
+    runSteps_psum_delta steps s [] [] (PInv.fresh s hv hr)
+  have hf : (Agg.psum s).keys = [] := by simp [Agg.keys, AMap.keys, hv]
+  refine ⟨href, ?_, ?_, ?_⟩
+  · rw [href]
+    exact allZip_map _ _ _ (fun p => by simp [psumDeltaOK_ref, psumDeltaConserved_ref])
+  · exact limit_first_keep_identity (.psum s) .delta steps hf
+  · exact limit_bound (.psum s) .delta steps hf
+
+/-- The same under attribute filters: a stream (view filter + aggregate function) reports the closed-form reference
+over the FILTERED sets of its windows — for every kind; precomputed sums with delta temporality report
+`refPointsDelta` over the filtered sets. -/
+theorem filtered_stream_is_reference (st : StreamSt) (g : Agg) (tp : Temporality) (steps : List SStep)
+    (hs : st.agg = some g) (hf : g.keys = []) :
+    (g.psumDelta tp = false →
+      (st.runSteps tp steps).2 =
+        (windows (g.resets tp) [] (steps.map (SStep.toA st.filter))).map (refPoints g g.limit)) ∧
+    (∀ s : PSum, g = .psum s → s.reported = [] → tp = .delta →
+      (st.runSteps tp steps).2 =
+        (windowsPrev [] [] (steps.map (SStep.toA st.filter))).map (fun p => refPointsDelta s.limit p.1 p.2)) := by
+  rw [stream_refines tp steps st g hs]
+  refine ⟨fun hp => report_is_reference g tp _ hf hp, ?_⟩
+  intro s hg hr htp
+  subst hg; subst htp
+  have hv : s.values = [] := by simpa [Agg.keys, AMap.keys] using hf
+  exact (psum_delta_is_reference s _ hv hr).1
 
 /-- Clause "re-admission after a delta reset": after a collection that clears (delta temporality, precomputed
 aggregators) the admission set is empty again, so the next cycle admits its own first `L-1` sets; with cumulative
@@ -223,6 +304,46 @@ theorem measure_reaches_each_stream_once (p : Pipe) (j : Nat) (a : CSet) (x : In
   simp only [Pipe.measure]
   exact foldl_modify_getElem? _ _ hnd _ _
 
+/-- Clause "renaming … views neither lose nor duplicate measurements", for views whose stream names differ only
+in case (or are identical): such views have the same normalised id, hence resolve to the SAME cache entry `idx`;
+`idx` occurs in the instrument's measure list at most once — exactly once when the entry has an aggregate function —
+so the shared aggregate function receives each measurement once, not once per view. -/
+theorem views_case_variants_once (L : Nat) (views : List View) (j : Nat) (i : Inst) (S : List StreamSt)
+    (v1 v2 : View) (h1 : v1 ∈ views) (h2 : v2 ∈ views) (m1 : v1.matches j i = true) (m2 : v2.matches j i = true)
+    (c1 : incompatible i v1.agg = false) (c2 : incompatible i v2.agg = false)
+    (hn : (v1.streamName j).norm = (v2.streamName j).norm) :
+    let r := insertInstrument L views j i S
+    ∃ idx s, findKey r.1 (streamKey i (v1.streamName j)) = some idx ∧
+      findKey r.1 (streamKey i (v2.streamName j)) = some idx ∧ r.1[idx]? = some s ∧
+      r.2.count idx ≤ 1 ∧ (s.agg.isSome = true → r.2.count idx = 1) := by
+  intro r
+  have h := views_no_loss_no_dup L views j i S
+  obtain ⟨hnd, _, hloss, _⟩ := h
+  obtain ⟨idx, s, hf1, hg, hin⟩ := hloss v1 h1 m1 c1
+  have hk : streamKey i (v1.streamName j) = streamKey i (v2.streamName j) := by simp [streamKey, hn]
+  refine ⟨idx, s, hf1, hk ▸ hf1, hg, ?_, ?_⟩
+  · exact List.nodup_iff_count.mp hnd idx
+  · intro ha
+    have hle : List.count idx r.2 ≤ 1 := List.nodup_iff_count.mp hnd idx
+    have hpos : 0 < List.count idx r.2 := List.count_pos_iff.mpr (hin ha)
+    omega
+
+/-- In every pipeline the model builds (`Sys.init`: one pipeline per reader, all instruments created in order),
+each instrument's measure list is duplicate-free, so one measurement applies filter-then-aggregate to each of the
+instrument's streams EXACTLY ONCE and touches no other stream — for every reader. -/
+theorem every_measurement_reaches_each_stream_once (L : Nat) (tps : List Temporality) (views : List View)
+    (insts : List Inst) (p : Pipe) (hp : p ∈ (Sys.init L tps views insts).pipes) (j : Nat) (a : CSet) (x : Int)
+    (i : Nat) :
+    (p.measure j a x).streams[i]? =
+      if i ∈ (p.meas[j]?).getD [] then (p.streams[i]?).map (·.measure a x) else p.streams[i]? := by
+  apply measure_reaches_each_stream_once
+  simp only [Sys.init, List.mem_map] at hp
+  obtain ⟨tp, _, rfl⟩ := hp
+  have hall := create_meas_nodup L views insts { tp := tp } 0 (by simp)
+  cases hm : (Pipe.create L views { tp := tp } insts 0).meas[j]? with
+  | none => simp
+  | some m => simpa using hall m (List.mem_of_getElem? hm)
+
 /-- A reader's collection is stream-wise: every stream of the pipeline is collected independently by
 `StreamSt.collect` (the step the stream theorems above are about), and the collection's metrics are exactly the
 non-empty reports of the streams that have an aggregate function, in creation order, under the first-seen name. -/
@@ -266,5 +387,37 @@ example : (insertInstrument 0
        { pat := .star, kind := none, rename := none, filter := some { deny := false, keys := [1] }, agg := none },
        { pat := .exact 0, kind := none, rename := some (1, false), filter := none, agg := some .drop }]
       0 { float := false, kind := .counter } []).2 = [0] := by decide
+
+
+/-! ### non-vacuity of the extension theorems -/
+
+/-- gauge, L = 2, delta: set 5 keeps its identity and reports its LAST value 9; 7 and 8 overflow, last one wins -/
+example : ((Agg.lv { limit := 2 }).runSteps .delta [.meas 5 1, .meas 7 2, .meas 5 9, .meas 8 4, .col 1]).2 =
+    [[(5, .num 9), (0, .num 4)]] := by decide
+example : refPoints (Agg.lv { limit := 2 }) 2 [(5, 1), (7, 2), (5, 9), (8, 4)] = [(5, .num 9), (0, .num 4)] := by
+  decide
+example : (Agg.lv { limit := 2 }).isLast = true ∧ (Agg.plv { limit := 2 }).resets .cumulative = true := by decide
+/-- histogram with boundaries [0, 10], L = 2: per key count / sum / buckets, and bucket totals [1,1,2] conserved -/
+example : ((Agg.hist { limit := 2, bounds := [0, 10] }).runSteps .delta
+      [.meas 5 (-1), .meas 7 3, .meas 5 50, .meas 8 70, .col 1]).2 =
+    [[(5, .hist 2 49 [1, 0, 1]), (0, .hist 2 73 [0, 1, 1])]] := by decide
+example : bucketsConserved (Agg.hist { limit := 2, bounds := [0, 10] }) [(5, -1), (7, 3), (5, 50), (8, 70)]
+    [(5, .hist 2 49 [1, 0, 1]), (0, .hist 2 73 [0, 1, 1])] = true := by decide
+/-- precomputed sum, delta, L = 2: cycle 1 observes 5↦10, 7↦3; cycle 2 observes 7↦4, 5↦12 (now 7 is kept and 5
+overflows): reported 7 ↦ 4 − 0 (7 was reported under the overflow set before), overflow ↦ 12 − 3 -/
+example : ((Agg.psum { limit := 2 }).runSteps .delta
+      [.meas 5 10, .meas 7 3, .col 1, .meas 7 4, .meas 5 12, .col 2]).2 =
+    [[(5, .num 10), (0, .num 3)], [(7, .num 4), (0, .num 9)]] := by decide
+example : windowsPrev [] [] [.meas 5 10, .meas 7 3, .col 1, .meas 7 4, .meas 5 12, .col 2] =
+    [([], [(5, 10), (7, 3)]), ([(5, 10), (7, 3)], [(7, 4), (5, 12)])] := by decide
+example : refPointsDelta 2 [(5, 10), (7, 3)] [(7, 4), (5, 12)] = [(7, .num 4), (0, .num 9)] ∧
+    psumDeltaConserved 2 [(5, 10), (7, 3)] [(7, 4), (5, 12)] [(7, .num 4), (0, .num 9)] = true := by decide
+/-- views renaming to "r0" and "R0": one cache entry, one measure function, the measurement is recorded once -/
+example :
+    let sys := Sys.run 0 [.delta] [{ pat := .exact 0, kind := none, rename := some (0, false), filter := none, agg := none },
+                                   { pat := .exact 0, kind := none, rename := some (0, true), filter := none, agg := none }]
+      [{ float := false, kind := .counter }] [.meas 0 [(1, 2)] 5, .col 0]
+    (sys.pipes.map (·.meas)) = [[[0]]] ∧
+    sys.recs.map (fun rc => rc.2.map (·.pts)) = [[[(code [(1, 2)], .num 5)]]] := by decide
 
 end Otel.C12
